@@ -162,36 +162,76 @@ func runC03(c *Ctx) {
 			}
 		}
 		ok := false
+		defs := localDefs(info, fd.Body)
+		// <param>.Previous.HasTerminated() — the receiver may have been put into a local first
+		isPrevTerminated := func(e ast.Expr) bool {
+			call, isC := unparen(e).(*ast.CallExpr)
+			if !isC {
+				return false
+			}
+			se, isS := call.Fun.(*ast.SelectorExpr)
+			if !isS || se.Sel.Name != "HasTerminated" {
+				return false
+			}
+			inner, isI := defs.resolve1(info, se.X).(*ast.SelectorExpr)
+			if !isI || inner.Sel.Name != "Previous" {
+				return false
+			}
+			id, isId := unparen(inner.X).(*ast.Ident)
+			return isId && isParam(info, fd, id)
+		}
 		if idx > 0 {
 			for _, s := range fd.Body.List[:idx] {
 				fs, isFor := s.(*ast.ForStmt)
-				if !isFor || fs.Cond == nil {
+				if !isFor {
 					continue
 				}
-				for _, f := range factsOf([]Guard{{Cond: fs.Cond}}) {
-					if call, isC := unparen(f.E).(*ast.CallExpr); isC && !f.True {
-						if se, isS := call.Fun.(*ast.SelectorExpr); isS && se.Sel.Name == "HasTerminated" {
-							if inner, isI := unparen(se.X).(*ast.SelectorExpr); isI && inner.Sel.Name == "Previous" {
-								if id, isId := inner.X.(*ast.Ident); isId && isParam(info, fd, id) {
-									// the loop must not contain an exit other than its condition
-									hasBreak := false
-									ast.Inspect(fs.Body, func(x ast.Node) bool {
-										switch y := x.(type) {
-										case *ast.BranchStmt:
-											if y.Tok == token.BREAK || y.Tok == token.GOTO {
-												hasBreak = true
-											}
-										case *ast.ReturnStmt:
-											hasBreak = true
-										}
-										return true
-									})
-									ok = !hasBreak
-								}
-							}
+				// the loop's exit: its condition `for !prev.HasTerminated() {`, or — with no
+				// condition — one top-level `if prev.HasTerminated() { break }` in its body
+				found := false
+				var exitIf *ast.IfStmt
+				if fs.Cond != nil {
+					for _, f := range factsOf([]Guard{{Cond: fs.Cond}}) {
+						if !f.True && isPrevTerminated(f.E) {
+							found = true
+						}
+					}
+				} else {
+					for _, bs := range fs.Body.List {
+						is, isIf := bs.(*ast.IfStmt)
+						if !isIf || is.Else != nil || is.Init != nil || len(is.Body.List) != 1 {
+							continue
+						}
+						if br, isBr := is.Body.List[0].(*ast.BranchStmt); !isBr || br.Tok != token.BREAK || br.Label != nil {
+							continue
+						}
+						fs2 := factsOf([]Guard{{Cond: is.Cond}})
+						if len(fs2) == 1 && fs2[0].True && isPrevTerminated(fs2[0].E) {
+							found = true
+							exitIf = is
 						}
 					}
 				}
+				if !found {
+					continue
+				}
+				// the loop must not contain an exit other than that one
+				hasBreak := false
+				ast.Inspect(fs.Body, func(x ast.Node) bool {
+					if x == ast.Node(exitIf) && exitIf != nil {
+						return false
+					}
+					switch y := x.(type) {
+					case *ast.BranchStmt:
+						if y.Tok == token.BREAK || y.Tok == token.GOTO {
+							hasBreak = true
+						}
+					case *ast.ReturnStmt:
+						hasBreak = true
+					}
+					return true
+				})
+				ok = !hasBreak
 			}
 		}
 		pos := fd.Pos()
@@ -242,9 +282,29 @@ func (c *Ctx) checkNormalExit(info *types.Info, rule string) {
 	if fd.Type.Params != nil && len(fd.Type.Params.List) > 0 {
 		ex.procs = info.Defs[fd.Type.Params.List[0].Names[0]]
 	}
+	// single-definition locals are looked through: last := len(*procs) - 1 ; last := &(*procs)[len(*procs)-1]
+	defs := localDefs(info, fd.Body)
 	isLast := func(e ast.Expr) bool {
-		v, ok := ex.procIndex(e, (&schedState{}).clone())
-		return ok && v.kind == 2 && v.sym == "LEN" && v.off == -1
+		for k := 0; k < 3; k++ {
+			e = unparen(e)
+			if u, ok := e.(*ast.UnaryExpr); ok && u.Op == token.AND {
+				e = unparen(u.X)
+			}
+			if _, isId := e.(*ast.Ident); !isId {
+				break
+			}
+			r := defs.resolve1(info, e)
+			if r == e {
+				break
+			}
+			e = r
+		}
+		ix, ok := e.(*ast.IndexExpr)
+		if !ok || !ex.isProcs(ix.X) {
+			return false
+		}
+		v := ex.evalIdx(defs.resolve1(info, ix.Index), (&schedState{}).clone())
+		return v.kind == 2 && v.sym == "LEN" && v.off == -1
 	}
 	waitIdx, readIdx := -1, -1
 	for i, s := range fd.Body.List {
